@@ -608,6 +608,41 @@ pub fn exec(sc: &mut dyn ScopeOps, ctx: &mut Ctx<'_>) -> Flow {
                 o.insert("via".into(), json!(via));
                 ctx.record(i, Some(sc), o);
             }
+            "iter_mut" => {
+                ctx.pc += 1;
+                let (esz, eal, rev, hint, n) = (u(&args, "esz"), u(&args, "eal"), b(&args, "rev"), u(&args, "hint"), u(&args, "n"));
+                let tags: Vec<u8> = (0..n).map(|k| 1 + ((k * 7 + i * 13) % 250) as u8).collect();
+                let via = ctx.variant;
+                let r = catch_unwind(AssertUnwindSafe(|| sc.iter_mut(esz, eal, rev, hint, n, &tags, via)));
+                let mut o = match r {
+                    Ok(Ok((addr, bytes))) => {
+                        let mut o = Ctx::obs("ok");
+                        let addr = if bytes.is_empty() { 0 } else { addr };
+                        o.insert("addr".into(), json!(addr));
+                        o.insert("len".into(), json!(bytes.len()));
+                        let order: Vec<u8> = if rev { tags.iter().rev().cloned().collect() } else { tags.clone() };
+                        let mut expect: Vec<u8> = Vec::new();
+                        for t in order {
+                            expect.extend(std::iter::repeat(t).take(esz));
+                        }
+                        o.insert("content_ok".into(), json!(bytes == expect));
+                        let id = u(&args, "id") as u64;
+                        if id != 0 {
+                            ctx.blocks.insert(id, Blk::new(id, addr, bytes.len(), eal, 0));
+                            o.insert("_fresh".into(), json!(id));
+                        }
+                        o
+                    }
+                    Ok(Err(())) => Ctx::obs("err"),
+                    Err(e) => {
+                        let mut o = Ctx::obs("panic");
+                        o.insert("msg".into(), json!(panic_msg(&e)));
+                        o
+                    }
+                };
+                o.insert("via".into(), json!(via));
+                ctx.record(i, Some(sc), o);
+            }
             "split" => {
                 ctx.pc += 1;
                 let id = u(&args, "id") as u64;
